@@ -608,23 +608,28 @@ class FTPFS(FS):
     @classmethod
     def _parse_facts(cls, line):
         # type: (Text) -> Tuple[Optional[Text], Dict[Text, Text]]
+        # RFC 3659 7.2: entry = [ facts ] SP pathname, facts = 1*( fact ";" ) without
+        # any space: everything behind the first space is the name, whatever it contains
         name = None
         facts = {}
-        for fact in line.split(";"):
+        facts_text, sep, pathname = line.partition(" ")
+        if not sep or (facts_text and not facts_text.endswith(";")):
+            facts_text, pathname = "", line  # no facts at all
+        for fact in facts_text.split(";"):
             key, sep, value = fact.partition("=")
             if sep:
-                key = key.strip().lower()
-                value = value.strip()
-                facts[key] = value
-            else:
-                name = basename(fact.rstrip("/").strip())
+                facts[key.strip().lower()] = value.strip()
+        if pathname not in ("", "/"):
+            name = basename(pathname.rstrip("/")) or None
         return name if name not in (".", "..") else None, facts
 
     @classmethod
     def _parse_mlsx(cls, lines):
         # type: (Iterable[Text]) -> Iterator[RawInfo]
         for line in lines:
-            name, facts = cls._parse_facts(line.strip())
+            # (a MLST reply line starts with one space; the name may end with blanks)
+            line = line.rstrip("\r\n")
+            name, facts = cls._parse_facts(line[1:] if line.startswith(" ") else line)
             if name is None:
                 continue
             _type = facts.get("type", "file")
